@@ -44,6 +44,7 @@ SubstG(g, ren) ==
     [] g[1] \in {"distinctfd", "show", "isnum", "isground"} -> <<g[1], SubstT(g[2], ren)>>
     [] g[1] = "dom" -> <<"dom", SubstT(g[2], ren), g[3]>>
     [] g[1] \in {"conj", "disj", "closure"} -> <<g[1], SubstGs(g[2], ren)>>
+    [] g[1] = "twice" -> <<"twice", SubstG(g[2], ren), SubstG(g[3], ren)>>
     [] g[1] \in {"rawconj", "rawdisj"} -> <<g[1], SubstG(g[2], ren), SubstG(g[3], ren)>>
     [] g[1] \in {"conde", "cond", "dfs", "conda", "condu", "onceo", "loop"} -> <<g[1], SubstCl(g[2], ren)>>
     [] g[1] = "fresh" -> <<"fresh", g[2], SubstGs(g[3], ren)>>
@@ -145,6 +146,7 @@ Elab(g) ==
              cls == FlatSeq([i \in 1..Len(arms) |-> [k \in 1..Len(arms[i].pats) |-> ClauseOf(i, k)]])
          IN <<IF g[2] = "matcha" THEN "conda" ELSE IF g[2] = "matchu" THEN "condu" ELSE "conde", cls>>
     [] g[1] \in {"conj", "disj", "closure"} -> <<g[1], ElabGs(g[2])>>
+    [] g[1] = "twice" -> <<"twice", Elab(g[2]), Elab(g[3])>>
     [] g[1] \in {"rawconj", "rawdisj"} -> <<g[1], Elab(g[2]), Elab(g[3])>>
     [] g[1] \in {"conde", "cond", "dfs", "conda", "condu", "onceo", "loop"} -> <<g[1], ElabCl(g[2])>>
     [] g[1] \in {"fresh", "project"} -> <<g[1], g[2], ElabGs(g[3])>>
